@@ -71,3 +71,63 @@ def applyChain (fs : List Filter) (ts : List Token) : List Token :=
   fs.foldl (fun acc f => f.apply acc) ts
 
 end TantivyModel.Tok
+
+namespace TantivyModel.Tok
+
+/-! ### FacetTokenizer under a filter chain
+
+`FacetTokenizer` is the only tokenizer that does not clear `token.text` on `advance`: it *appends*
+the next path segment to whatever the text buffer holds. Filters that rewrite the text in place
+(`LowerCaser`, `AsciiFoldingFilter`, `Stemmer` through `token_mut()`) therefore rewrite the buffer
+the tokenizer builds on, so the chain cannot be applied token by token: the buffer is threaded
+through. (Offsets and positions stay 0 whatever happens.) -/
+
+/-- what the stream exposes for the current emission: the tokenizer's own token (its text is the
+persistent buffer) or detached parts produced by `SplitCompoundWords` (clones) -/
+inductive Exposed where
+  | tail
+  | parts (ps : List (List Nat))
+
+/-- run the filters (innermost first) over one emission; returns the buffer afterwards and the
+texts that come out. A dropping filter ends the emission: outer filters never see the token, inner
+rewrites have already happened.
+-- mirrors: src/tokenizer/facet_tokenizer.rs::advance -/
+def facetThrough : List Filter → List Nat → Exposed → (List Nat × List (List Nat))
+  | [], cur, .tail => (cur, [cur])
+  | [], cur, .parts ps => (cur, ps)
+  | .lower g :: fs, cur, .tail => facetThrough fs (lowerText g cur) .tail
+  | .fold g :: fs, cur, .tail => facetThrough fs (foldText g cur) .tail
+  | .stem g :: fs, cur, .tail => facetThrough fs (g cur) .tail
+  | .removeLong l :: fs, cur, .tail =>
+    if removeLongKeeps l cur then facetThrough fs cur .tail else (cur, [])
+  | .alnumOnly :: fs, cur, .tail =>
+    if cur.all isAsciiAlnum then facetThrough fs cur .tail else (cur, [])
+  | .stop ws :: fs, cur, .tail =>
+    if ws.contains cur then (cur, []) else facetThrough fs cur .tail
+  | .split g :: fs, cur, .tail =>
+    match g cur with
+    | some (p :: ps) => facetThrough fs cur (.parts (p :: ps))
+    | _ => facetThrough fs cur .tail
+  | f :: fs, cur, .parts ps =>
+    facetThrough fs cur (.parts (ps.flatMap (fun p => (f.onToken ⟨0, 0, 0, p⟩).map (·.text))))
+
+/-- the segments the tokenizer appends: nothing for the root, then the text between consecutive
+cuts (`facetCuts`) -/
+def facetPiecesAux (s : Text) : Nat → List Nat → List (List Nat)
+  | _, [] => []
+  | a, c :: cs => (sliceFrom 0 s a c).map Cp.code :: facetPiecesAux s c cs
+
+def facetPieces (sep : Nat) (s : Text) : List (List Nat) :=
+  [] :: (if s.isEmpty then [] else facetPiecesAux s 0 (facetCuts sep true 0 s))
+
+def facetChainAux (fs : List Filter) : List Nat → List (List Nat) → List (List Nat)
+  | _, [] => []
+  | cur, p :: ps =>
+    let r := facetThrough fs (cur ++ p) .tail
+    r.2 ++ facetChainAux fs r.1 ps
+
+/-- token stream of `FacetTokenizer` + filter chain: every token still carries (0, 0, 0) -/
+def facetChain (sep : Nat) (fs : List Filter) (s : Text) : List Token :=
+  (facetChainAux fs [] (facetPieces sep s)).map (fun t => ⟨0, 0, 0, t⟩)
+
+end TantivyModel.Tok
